@@ -10,6 +10,7 @@ from __future__ import annotations
 
 import copy
 import gc
+import pickle
 from typing import Any, Dict, Iterable, List, Optional, Tuple
 
 import networkx as nx
@@ -33,7 +34,8 @@ SHRINK_BUDGET = 300
 FAULT_OPS = ("gc", "drop_graph", "alloc")
 PROBES = ["cache_entry_read_by_engine_with_other_attrs", "weak_entry_purged_by_gc", "proper_subgraph_query",
           "filter_on_off_pair", "one_edit_neighbour_pair", "relabelled_pair", "hcount_asymmetric_pair",
-          "contained_and_mapped", "engine_shares_graph_with_other_engine", "call_relying_on_signature_defaults", "multi_component_pattern"]
+          "contained_and_mapped", "engine_shares_graph_with_other_engine", "call_relying_on_signature_defaults", "multi_component_pattern", "graph_derived_from_queried_object",
+          "caller_list_mutated_between_calls"]
 REAL = ["synkit.Graph.Matcher.graph_matcher.GraphMatcherEngine.isomorphic / get_mappings / _pre_check / _wl_hash_cached (class-level weak cache)",
         "synkit.Graph.Matcher.subgraph_matcher.SubgraphMatch.subgraph_isomorphism / is_subgraph",
         "synkit.Graph.Matcher.subgraph_matcher.SubgraphSearchEngine.find_subgraph_mappings (_quick_pre_filter on/off)",
@@ -93,7 +95,7 @@ def relabel_spec(sp: Dict[str, Any], rng) -> Dict[str, Any]:
     edges = [[m[e[0]], m[e[1]], e[2]] if rng.random() < 0.5 else [m[e[1]], m[e[0]], e[2]] for e in sp["edges"]]
     rng.shuffle(nodes)
     rng.shuffle(edges)
-    return {"nodes": nodes, "edges": edges}
+    return {"nodes": nodes, "edges": edges, "_map": m}
 
 
 def edit_spec(sp: Dict[str, Any], rng) -> Dict[str, Any]:
@@ -153,6 +155,27 @@ def build(sp: Dict[str, Any]) -> nx.Graph:
         else:
             g.add_edge(u, v, order=o)
     return g
+
+
+def morph_inplace(g: nx.Graph, sp: Dict[str, Any]) -> None:
+    """Turn a graph object the caller obtained by copying / relabelling an earlier one into the graph `sp` describes
+    (graph-level attributes travel with the copy, as they do for any user who copies a graph and edits the copy)."""
+    want = {n[0] for n in sp["nodes"]}
+    g.remove_nodes_from([n for n in list(g.nodes) if n not in want])
+    for n, el, ch, h in sp["nodes"]:
+        g.add_node(n)
+        g.nodes[n].clear()
+        g.nodes[n]["element"] = el
+        if ch is not None:
+            g.nodes[n]["charge"] = ch
+        if h is not None:
+            g.nodes[n]["hcount"] = h
+    g.remove_edges_from(list(g.edges))
+    for u, v, o in sp["edges"]:
+        if o is None:
+            g.add_edge(u, v)
+        else:
+            g.add_edge(u, v, order=o)
 
 
 def snapshot(g: nx.Graph) -> Any:
@@ -284,13 +307,18 @@ def execute(case: Dict[str, Any], sim: Sim) -> None:
 
 
 def _run(case: Dict[str, Any], sim: Sim, world: World) -> None:
+    na_shared: List[str] = []            # ONE caller-owned list object per argument, edited in place between calls
+    ea_shared: List[str] = []
+    lb_shared: List[str] = []
+    df_shared: List[Any] = []
     pool: List[Dict[str, Any]] = []      # {"spec","g","snap","touched": set of node_attr tuples, "kind"}
     engines: List[Dict[str, Any]] = []
 
-    def add_graph(sp: Dict[str, Any], kind: str, src: Optional[int] = None) -> None:
+    def add_graph(sp: Dict[str, Any], kind: str, src: Optional[int] = None, obj: Optional[nx.Graph] = None) -> None:
         if not sp["nodes"]:
             return
-        g = build(sp)
+        sp = {k_: v_ for k_, v_ in sp.items() if not k_.startswith("_")}
+        g = obj if obj is not None else build(sp)
         pool.append({"spec": sp, "g": g, "snap": snapshot(g), "touched": set(), "kind": kind, "src": src, "engines": set()})
         sim.event("graph", {"kind": kind, "n": len(sp["nodes"]), "m": len(sp["edges"])})
 
@@ -357,12 +385,37 @@ def _run(case: Dict[str, Any], sim: Sim, world: World) -> None:
             if not pool:
                 continue
             src = pick(op["src"])
+            by_object = rng.random() < 0.5     # the caller derives the new graph from the OBJECT it already holds
+            obj = None
             if op["kind"] == "relabel":
-                add_graph(relabel_spec(src["spec"], rng), "relabel", src["g"])
+                nsp = relabel_spec(src["spec"], rng)
+                if by_object:
+                    obj = nx.relabel_nodes(src["g"], nsp["_map"], copy=True)
+                    morph_inplace(obj, nsp)
+                add_graph(nsp, "relabel", src["g"], obj)
             elif op["kind"] == "edit":
-                add_graph(edit_spec(src["spec"], rng), "edit", src["g"])
+                nsp = edit_spec(src["spec"], rng)
+                if by_object:
+                    how = rng.choice(["copy", "deepcopy", "pickle"])
+                    if nx.is_frozen(src["g"]):
+                        how = "copy"                          # deep copies of a view are views again (read-only)
+                    obj = src["g"].copy() if how == "copy" else (copy.deepcopy(src["g"]) if how == "deepcopy"
+                                                               else pickle.loads(pickle.dumps(src["g"])))
+                    morph_inplace(obj, nsp)
+                add_graph(nsp, "edit", src["g"], obj)
             else:
-                add_graph(sub_spec(src["spec"], rng), "sub", src["g"])
+                nsp = sub_spec(src["spec"], rng)
+                if by_object:
+                    keep = [n[0] for n in nsp["nodes"]]
+                    view = src["g"].subgraph(keep)
+                    if snapshot(view) == snapshot(build(nsp)) and rng.random() < 0.6:
+                        obj = view                           # a read-only view shares the parent's graph-level dict
+                    else:
+                        obj = view.copy()
+                        morph_inplace(obj, nsp)
+                add_graph(nsp, "sub", src["g"], obj)
+            if obj is not None:
+                sim.probe("graph_derived_from_queried_object")
             continue
         if k == "new_engine":
             new_engine(op["cfg"])
@@ -469,6 +522,10 @@ def _run(case: Dict[str, Any], sim: Sim, world: World) -> None:
                 sim.probe("contained_and_mapped")
             sim.state(("map", tuple(c["node_attrs"]), c["wl1"], bool(got), induced, len(rp.nodes), len(rh.nodes)))
             sim.event("q_map", {"e": E["id"], "n": len(got)})
+            for m in list(got) + list(pristine) + list(sibm):     # returned containers belong to the caller
+                if isinstance(m, dict):
+                    m.clear()
+            got.clear()
         elif k == "q_sub":
             ch, pa = pick(op["child"]), pick(op["parent"])
             note_pair(ch, pa)
@@ -486,7 +543,9 @@ def _run(case: Dict[str, Any], sim: Sim, world: World) -> None:
                   "graph_morphism.subgraph_isomorphism": gmorph.subgraph_isomorphism}[api]
             for filt in (False, True):
                 if style == "explicit":
-                    r = fn(ch["g"], pa["g"], labels, defaults, "order", filt, ct)
+                    lb_shared[:] = labels
+                    df_shared[:] = defaults
+                    r = fn(ch["g"], pa["g"], lb_shared, df_shared, "order", filt, ct)
                 elif style == "defaults":
                     # rely on the signature defaults (a shared mutable default must not drift with history)
                     r = fn(ch["g"], pa["g"], use_filter=filt, check_type=ct)
@@ -536,11 +595,15 @@ def _run(case: Dict[str, Any], sim: Sim, world: World) -> None:
             h, p = pick(op["host"]), pick(op["pattern"])
             note_pair(h, p)
             site = "SubgraphSearchEngine.find_subgraph_mappings"
-            na = list(op["node_attrs"])
+            if na_shared and na_shared != list(op["node_attrs"]):
+                sim.probe("caller_list_mutated_between_calls")
+            na_shared[:] = list(op["node_attrs"])
+            ea_shared[:] = ["order"]
+            na = na_shared
             res2 = {}
             for pf in (False, True):
                 res2[pf] = SubgraphSearchEngine.find_subgraph_mappings(
-                    h["g"], p["g"], node_attrs=na, edge_attrs=["order"], strategy=op["strategy"],
+                    h["g"], p["g"], node_attrs=na_shared, edge_attrs=ea_shared, strategy=op["strategy"],
                     strict_cc_count=False, pre_filter=pf)
             sim.probe("filter_on_off_pair")
             canon_ = lambda ms: sorted(sorted(m.items()) for m in ms)  # noqa: E731
@@ -580,6 +643,10 @@ def _run(case: Dict[str, Any], sim: Sim, world: World) -> None:
                     sim.probe("multi_component_pattern")
             sim.state(("find", op["strategy"], bool(res2[False]), len(rp.nodes), len(rh.nodes)))
             sim.event("q_find", {"n": len(res2[False])})
+            for lst in res2.values():
+                for m in lst:
+                    m.clear()
+                lst.clear()
         check_unmutated(k)
 
 
